@@ -75,11 +75,13 @@ def norm_ddl(sql):
 def sql_label(sql):
     s = re.sub(r"\s+", " ", strip_sql_comments(sql)).strip().rstrip(";").strip()
     u = s.upper()
-    if u == "PRAGMA FOREIGN_KEYS = ON":
+    # identifier quoting and spacing around '=' do not change what a statement does
+    bare = re.sub(r"\s*=\s*", "=", re.sub(r"[`\"\[\]]", "", u))
+    if bare in ("PRAGMA FOREIGN_KEYS=ON", "PRAGMA FOREIGN_KEYS=1", "PRAGMA FOREIGN_KEYS=TRUE"):
         return "pragma_fk"
-    if u == "PRAGMA FOREIGN_KEY_CHECK":
+    if bare == "PRAGMA FOREIGN_KEY_CHECK":
         return "fk_check"
-    if u == "SELECT VERSION FROM VERSION":
+    if bare in ("SELECT VERSION FROM VERSION", "SELECT VERSION.VERSION FROM VERSION"):
         return "select_version"
     if re.match(r"^BEGIN( TRANSACTION)?$", u):
         return "sql:begin"
